@@ -141,6 +141,35 @@ def _task(t, stop_at=None):
             _via(entry, visit, acc, blk, vec, asg, idx)
         if _stopped(acc, stop_at):
             return acc
+    # ... and from a second thread (run to completion: no interleaving, only "not the thread that
+    # did everything so far" - thread-local state, per-thread caches with shared bookkeeping)
+    if not acc.get("bad"):
+        import threading
+
+        failed = []
+
+        def second():
+            try:
+                core.reset_ambient()     # the default decimal context of the tasks, in this thread too
+                for vec, asg, idx in first[:8] + last:
+                    visit(acc, blk, vec, asg, idx)
+                    if twin is not None:
+                        visit(acc, twin, twin.prefix + vec[len(prefix):], asg, idx)
+            except BaseException as e:  # noqa - handed to the main thread
+                failed.append(e)
+
+        th = threading.Thread(target=second)
+        th.start()
+        th.join()
+        if failed:
+            raise failed[0]
+        acc["second_thread"] = len(first[:8] + last)
+        for c in acc.get("bad", []):
+            c.setdefault("thread", "second")
+            if "second thread" not in c.get("what", ""):
+                c["what"] = "%s  [read from a second thread, after the main thread did the task's sweep]" % c.get("what", "")
+        if _stopped(acc, stop_at):
+            return acc
     # depth phase 2: one point many times (only the first task of a block in the thorough tier)
     if first and not acc.get("bad"):
         reps = REPEAT.get(_TIER or "quick", REPEAT["quick"])
@@ -251,10 +280,12 @@ def run(ctx, blocks, visit, new_acc, tasks_per_block=None):
         "points_also_judged_via_from_rh_vector": sum(a.get("via_rh", 0) for a in accs),
         "points_also_judged_via_parse_cvss_from_text": sum(a.get("via_text", 0) for a in accs),
         "points_also_judged_after_hash_and_compare": sum(a.get("via_hashed", 0) for a in accs),
+        "points_judged_again_from_a_second_thread": sum(a.get("second_thread", 0) for a in accs),
     }
     for k in ("depth_phase_visits", "histories_from_fresh_process", "history_visits",
               "tasks_run_after_the_prior_history", "tasks", "points_also_judged_via_from_rh_vector",
-              "points_also_judged_via_parse_cvss_from_text", "points_also_judged_after_hash_and_compare"):
+              "points_also_judged_via_parse_cvss_from_text", "points_also_judged_after_hash_and_compare",
+              "points_judged_again_from_a_second_thread"):
         ctx.depth_stats[k] += prev.get(k, 0)
     return accs + list(haccs)
 
